@@ -70,3 +70,35 @@ package middlewares
 //@   loop 2
 //@     invariant -1 <= $i && $i < len(issuer)
 //@     invariant checkIss <==> (exists k int :: 0 <= k && k <= $i && verIss(claimsG, issuer[k]))
+
+// ---------------------------------------------------------------------------
+// C16: the authorizer middleware passes a request on to the handler only after the external policy check or the ACL
+// decision (doAclCheck, above) granted it, and the ACL decision is taken for the request's own method and path
+//@ assumed (echo.Context).Get
+//@   pure
+//@ assumed (echo.Context).Set
+//@   pure
+//@ assumed (echo.Context).Request
+//@   pure
+//@ assumed middlewares.doOpaCheck
+//@   pure
+//@ unit middlewares.Authorizer$1$1$1
+//@   prop C16
+//@   ghost grantedG bool = false
+//@   ghost reqMethodG *http.Request = nil
+//@   ghost reqPathG *http.Request = nil
+//@   dyncall next pure
+//@   at call Get#1
+//@     assume typeof($result) == typeid("*jwt.Token") && cast($result, "*jwt.Token") != nil && typeof(cast($result, "*jwt.Token").Claims) == typeid("*security.CustomClaims")
+//@   at call doOpaCheck#1
+//@     ghost grantedG := $result1 == nil
+//@   at call Request#3
+//@     ghost reqMethodG := $result
+//@   at call Request#4
+//@     ghost reqPathG := $result
+//@   at call doAclCheck#1 before
+//@     assert [C16:acl-decision-taken-for-the-requests-own-method-and-path] (reqMethodG != nil ==> method == reqMethodG.Method) && (reqPathG != nil && reqPathG.URL != nil ==> path == reqPathG.URL.Path) && $arg3 == core
+//@   at call doAclCheck#1
+//@     ghost grantedG := $result == nil
+//@   at call next#1 before
+//@     assert [C16:request-reaches-the-handler-only-after-the-policy-or-the-acl-granted-it] grantedG
